@@ -4,7 +4,9 @@ broken tie by the check).
 '''
 import ast
 import os
+import json
 import re
+import sys
 
 HERE = os.path.dirname(os.path.abspath(__file__))
 VERIF = os.path.dirname(HERE)
@@ -140,6 +142,39 @@ def bind_layers(tree):
     return out
 
 
+_DYN_CODE = r'''
+import importlib, json, sys
+out = []
+for modname in sys.argv[1:]:
+    try:
+        mod = importlib.import_module(modname)
+    except Exception as err:
+        continue
+    for name in dir(mod):
+        cls = getattr(mod, name)
+        guess = getattr(cls, 'payload_guess', None)
+        if not isinstance(cls, type) or not isinstance(guess, list) or getattr(cls, '__module__', None) != modname:
+            continue
+        for (fval, upper) in guess:
+            if all(isinstance(v, int) and not isinstance(v, bool) for v in fval.values()):
+                out.append([cls.__name__, upper.__name__, {k: int(v) for k, v in fval.items()}])
+print(json.dumps(out))
+'''
+
+
+def dynamic_binds(modnames):
+    ''' scapy layer bindings of the imported modules: [(lower, upper, {field: value})]; [] when a module cannot be imported '''
+    import subprocess
+    env = dict(os.environ, PYTHONPATH=os.pathsep.join([os.path.join(REPO, 'src'), os.path.join(HERE, 'stubs')]))
+    try:
+        py = '/venv/bin/python' if os.path.exists('/venv/bin/python') else sys.executable
+        p = subprocess.run([py, '-c', _DYN_CODE] + list(modnames), env=env, stdout=subprocess.PIPE,
+                           stderr=subprocess.DEVNULL, universal_newlines=True, timeout=120)
+        return [(lo, up, kw) for (lo, up, kw) in json.loads(p.stdout.strip().split('\n')[-1])]
+    except Exception:
+        return []
+
+
 def dbus_sigs(tree):
     ''' {Class.func: (kind, in_sig, out_sig|signature)} '''
     _use(tree)
@@ -225,6 +260,18 @@ def _field(node):
 
 def _cond(node):
     ''' Canonical text of the small family of ConditionalField lambdas used by the repo. '''
+    if isinstance(node, ast.Lambda) and len(node.args.args) == 1 and not node.args.kwonlyargs and not node.args.defaults:
+        # the name of the parameter is immaterial: it is written `p`
+        old = node.args.args[0].arg
+
+        class Ren(ast.NodeTransformer):
+            def visit_Name(self, n):
+                return ast.copy_location(ast.Name(id='p', ctx=n.ctx), n) if n.id == old else n
+
+            def visit_arg(self, a):
+                return ast.copy_location(ast.arg(arg='p', annotation=None), a) if a.arg == old else a
+        import copy
+        node = Ren().visit(copy.deepcopy(node))
     src = ast.unparse(node)
     src = re.sub(r'\s+', ' ', src)
     return src
@@ -320,6 +367,13 @@ def collect():
     f['binds'] = []
     for tree in (msgs, cont, ext, blocks, admin, bpsecenc, btm):
         f['binds'] += bind_layers(tree)
+    # bindings made in a way the syntactic reader does not see (a loop over a table, a helper …) are read
+    # from the imported classes; a (lower, upper) pair already found in the source is left as it was read
+    have = set((lo.split('.')[-1], up.split('.')[-1]) for (lo, up, _kw) in f['binds'])
+    for (lo, up, kw) in dynamic_binds(['tcpcl.messages', 'tcpcl.contact', 'tcpcl.extend', 'btpu.messages']):
+        if (lo, up) not in have:
+            f['binds'].append((lo, up, kw))
+            have.add((lo, up))
     f['dbus'] = {}
     for name, tree in (('tcpcl', sess), ('tcpclagent', tag), ('udpcl', udp), ('btpu', bta), ('bp', bpagent), ('admin', adminapp)):
         for k, v in dbus_sigs(tree).items():
@@ -359,7 +413,9 @@ def render(f):
     rows = []
     for (lo, up, kw) in f['binds']:
         for k, v in sorted(kw.items()):
-            rows.append('  (%s, %s, %s, %d)' % (lean_str(lo.split('.')[-1]), lean_str(up.split('.')[-1]), lean_str(k), v))
+            rows.append((lo.split('.')[-1], k, v, up.split('.')[-1]))
+    # canonical order (lower layer, key, value, upper layer): independent of the order of the statements
+    rows = ['  (%s, %s, %s, %d)' % (lean_str(lo), lean_str(up), lean_str(k), v) for (lo, k, v, up) in sorted(set(rows))]
     L.append(',\n'.join(rows))
     L.append(']')
     L.append('')
